@@ -13,7 +13,13 @@ NAME=$(echo "$D" | tr '/' '_' | tail -c 40)
 WT=/tmp/sc$NAME
 git -C /repo worktree remove --force $WT >/dev/null 2>&1
 git -C /repo worktree add --detach $WT HEAD -q || { echo "RESULT $D worktree-failed"; exit 2; }
-cleanup() { [ "${KEEP:-0}" = 1 ] || git -C /repo worktree remove --force $WT >/dev/null 2>&1; }
+cleanup() {
+  [ "${KEEP:-0}" = 1 ] && return
+  git -C /repo worktree remove --force $WT >/dev/null 2>&1
+  # the test binaries and the scratch modfile built against this worktree
+  local tag; tag=$(echo "$WT" | md5sum | cut -c1-10)
+  rm -f /verif/bin/*.$tag.test /verif/harness/.modfiles/*$tag* 2>/dev/null
+}
 trap cleanup EXIT
 LOG=/verif/logs/seedcheck.$NAME.log; mkdir -p /verif/logs; : > $LOG
 
